@@ -78,7 +78,77 @@ def gen_raw_cases(chk, n):
     return out
 
 
-TABLE_OPS = ["open", "reg", "cc", "cs", "commit", "el", "rm", "ready"]
+TABLE_OPS = ["open", "reg", "cc", "cs", "commit", "commith", "el", "rm", "ready"]
+
+
+def gen_handler_cases(chk, n):
+    """Histories driven through the real ConnectionAuthenticated handler (commith), with some
+    sessions that never authenticate ("intruders": any claimed name, nonce, direction).
+    Every session is registered once, before it authenticates."""
+    rng = chk.rng
+    out = []
+    for _ in range(n):
+        this = rng.choice([1, 2, 3])
+        peers = [p for p in (1, 2, 3, 4) if p != this][:rng.choice([1, 2])]
+        ops, ids, intr, registered, committed = [], [], set(), set(), set()
+        nid = 0
+        L = rng.choice([6, 10, 16, 24])
+        for _ in range(L):
+            r = rng.random()
+            if r < 0.30 or not ids:
+                nid += 1
+                ids.append(nid)
+                if rng.random() < 0.3:
+                    intr.add(nid)
+                ops.append(("open", nid, rng.choice([0, 1, 1])))
+                ops.append(("reg", nid, rng.choice(peers), rng.choice([0, 0, 1, 2, 3])))
+                registered.add(nid)
+            elif r < 0.60:
+                c = [i for i in ids if i not in intr]
+                if c:
+                    i = rng.choice(c)
+                    ops.append(("commith", i))
+                    committed.add(i)
+            elif r < 0.70:
+                ops.append(("cc", rng.choice(ids)))
+            elif r < 0.78:
+                ops.append(("rm", rng.choice(ids)))
+            elif r < 0.90:
+                ops.append(("ready", rng.choice(ids)))
+            else:
+                ops.append(("el", rng.choice(ids)))
+        for i in ids:
+            ops.append(("el", i))
+        out.append({"this": this, "ops": ops, "intruders": sorted(intr)})
+    return out
+
+
+def erase_intruders(c):
+    keep = [k for k, op in enumerate(c["ops"]) if op[1] not in c["intruders"]]
+    return {"this": c["this"], "ops": [c["ops"][k] for k in keep]}, keep
+
+
+def handler_oracle(c, outs):
+    """'close the rest': after every ConnectionAuthenticated at most one accepted, authenticated,
+    still open session per (distinctly named) peer remains."""
+    srv, peer, removed, stopped, committed = {}, {}, set(), set(), set()
+    for op, o in zip(c["ops"], outs):
+        if op[0] == "open" and op[1] not in srv:
+            srv[op[1]] = op[2]
+        elif op[0] == "reg":
+            peer[op[1]] = op[2]
+        elif op[0] == "rm":
+            removed.add(op[1])
+        elif op[0] == "commith" and isinstance(o, tuple) and o[0] == "OCommitH":
+            committed.add(op[1])
+            stopped |= set(o[2])
+            p = peer.get(op[1])
+            if p is None or p == c["this"]:
+                continue
+            alive = [j for j in committed if srv.get(j) and peer.get(j) == p and j not in removed and j not in stopped]
+            if len(alive) > 1:
+                return False, f"after ConnectionAuthenticated({op[1]}) the accepted sessions {sorted(alive)} of peer {p} are all still open"
+    return True, ""
 
 
 def gen_table_cases(chk, n):
@@ -131,6 +201,7 @@ def table_term(c):
          "cc": lambda o: f"TCheckCand {o[1]}",
          "cs": lambda o: f"TCheckSess {o[1]} {o[2]}",
          "commit": lambda o: f"TCommit {o[1]}",
+         "commith": lambda o: f"TCommitH {o[1]}",
          "el": lambda o: f"TIsElected {o[1]}",
          "rm": lambda o: f"TRemove {o[1]}",
          "ready": lambda o: f"TReady {o[1]}"}
@@ -138,9 +209,16 @@ def table_term(c):
 
 
 def canon_table(t):
-    """sort the loser lists (HashMap iteration order on the implementation side)"""
+    """sort the loser lists (HashMap iteration order on the implementation side); a session that
+    was already stopped cannot be observed being stopped again"""
     out = []
+    gone = set()
     for x in t:
+        if isinstance(x, tuple) and x[0] == "OCommitH":
+            new = sorted(i for i in x[2] if i not in gone)
+            gone |= set(new)
+            out.append(("OCommitH", x[1], new))
+            continue
         if isinstance(x, tuple) and x[0] == "OCommit" and isinstance(x[1], tuple) and x[1][0] == "Some":
             tup = x[1][1]
             out.append(("OCommit", ("Some", ("tuple", tup[1], sorted(tup[2])))))
@@ -289,11 +367,50 @@ def run(chk):
                           f"correspondence E3:table differs at op #{first}\n" + desc, failing_input=False)
         if i == 3:
             chk.coverage["samples"].append(json.loads(desc))
-    chk.coverage["traces_validated_against_impl"] = nm + nr + nt
+    # ---- handler-level histories (the real ConnectionAuthenticated handler) + intruder erasure
+    hcs = gen_handler_cases(chk, (250 if quick else 3000) * factor)
+    hlines, erased = [], []
+    for c in hcs:
+        c2, keep = erase_intruders(c)
+        erased.append((c2, keep))
+        hlines.append(table_line(c))
+        hlines.append(table_line(c2))
+    himpl = [canon_table(parse_term(x)) for x in run_harness(build, "eng_elect", hlines, shards=8)]
+    hmodel = [canon_table(parse_term(x)) for x in coq_eval("C18h", IMPORTS, [table_term(c) for c in hcs])]
+    for i, c in enumerate(hcs):
+        iv, iv2, mv = himpl[2 * i], himpl[2 * i + 1], hmodel[i]
+        c2, keep = erased[i]
+        chk.coverage["evaluations"] += 1
+        for op in c["ops"]:
+            chk.count("handler.op." + op[0])
+        chk.count("handler.intruders=%d" % len(c["intruders"]))
+        distinct.add(json.dumps(c, sort_keys=True))
+        desc = json.dumps({"kind": "handler", "harness_line": table_line(c), "impl": show_term(iv),
+                           "model": show_term(mv), "intruders": c["intruders"],
+                           "without_intruders_line": table_line(c2), "impl_without_intruders": show_term(iv2)}, indent=1)
+        ok, why = handler_oracle(c, iv)
+        moved = [(k, c["ops"][k]) for pos, k in enumerate(keep)
+                 if c["ops"][k][0] in ("cc", "el", "ready", "commith") and iv[k] != iv2[pos]]
+        if not ok:
+            chk.violation("duplicate connections are not all closed: " + why,
+                          "C18 handler oracle rejects the implementation\n" + why + "\n" + desc)
+        elif moved:
+            chk.violation("an unauthenticated connection changed the verdict about another session",
+                          f"C18 unauthenticated-powerless oracle: the answers at ops {moved[:3]} change when the "
+                          f"never-authenticated sessions {c['intruders']} are removed from the history\n" + desc)
+        elif mv != iv:
+            chk.coverage["disagreements_checked"] += 1
+            first = next((j for j, (a, b) in enumerate(zip(mv, iv)) if a != b), None)
+            chk.violation("model/implementation disagree (ConnectionAuthenticated handler)",
+                          f"correspondence E3:handler history differs at op #{first}\n" + desc, failing_input=False)
+        if i == 5:
+            chk.coverage["samples"].append(json.loads(desc))
+    chk.coverage["traces_validated_against_impl"] = nm + nr + nt + len(hcs)
     chk.coverage["distinct_nontrivial"] = len(distinct)
     chk.coverage["rule"] = ("mirror: all connection multisets of size <=3 over nonces {0,1,2}, both name orders, two id "
                             "layouts (exhaustive) + seeded random sets up to 8 connections; raw: random candidate lists; "
-                            "table: random histories of the 8 table operations. non-trivial = at least 2 candidates / any table history; "
+                            "table: random histories of the table operations; handler: histories through the real ConnectionAuthenticated "
+                            "handler with never-authenticating intruder sessions, each also run with the intruders erased. non-trivial = at least 2 candidates / any table history; "
                             "distinct = distinct case descriptions")
     chk.coverage["exhaustive_part"] = "connection multisets |cs|<=3, nonces in {0,1,2}"
     return chk.finish(trusted_base=TRUSTED)
@@ -306,4 +423,5 @@ TRUSTED = [
     "hook wrappers ractor_cluster/src/node/verif.rs (cfg slawlor_ractor_verif) call the real private functions",
     "node names are modelled by rank; the harness uses fixed-width names so str::cmp agrees with the rank order",
     "Rust harness eng_elect, lib/common.py term parser and comparison",
+    "the 'close the rest' and 'unauthenticated-powerless' oracles on handler histories are evaluated in Python on the implementation's answers (the corresponding model facts are theorems C18_one_ready_per_peer, C18_unauth_powerless, C18_commit_unauth_powerless, C18_check_candidate_unauth_powerless)",
 ]
